@@ -43,6 +43,12 @@ fn parse_obj(b: &[u8], off: usize, want: (u64, u64), len_of: &dyn Fn(u64) -> Opt
         problems.push(format!("object {}: `obj` keyword missing at offset {}", want.0, off));
         return None;
     }
+    // between objects there is only white-space and comments, and a comment runs to the end of its line:
+    // an object header behind a `%` on the same line is part of that comment for every sequential reader
+    let line_start = b[..off].iter().rposition(|&c| c == b'\n' || c == b'\r').map(|i| i + 1).unwrap_or(0);
+    if b[line_start..off].contains(&b'%') {
+        problems.push(format!("object {}: its header at offset {} follows a comment on the same line (`{}`)", want.0, off, String::from_utf8_lossy(&b[line_start..off])));
+    }
     let val = match p.value(0) {
         Ok(v) => v,
         Err(e) => {
